@@ -937,7 +937,9 @@ SLE_T = (250.0, 450.0)
 K_SCALES = [1e-3, 1e-2, 0.1, 0.5, 2.0, 10.0, 100.0, 1e3]
 
 # ---- frozen tolerances of C15 (numbers: CALIBRATION_C15 below)
-ACT_TOL = 0.05          # max_i |ln(a_i^L / a_i^l)|, a = x * gamma
+ACT_TOL_PE = 1e-6       # 'pseudo equilibrium': max_i |ln(a_i^L / a_i^l)|, a = x * gamma
+ACT_C = 10.0            # 'shgo' / 'differential evolution': |ln(a_i^L / a_i^l)| <= ACT_C * sqrt(2 * OPT_FTOL / m_i)
+OPT_FTOL = 1e-6         # LLE.shgo_options['f_tol'] == LLE.differential_evolution_options['tol']
 SPLIT_TOL = 1e-4        # max |flow difference| / total feed, fresh twin and cache-vs-no-cache
 SCALE_TOL = 1e-4        # same measure between the k-scaled twin universe (divided by k) and the original
 TOP_TOL = 1e-12         # slack on the mass-fraction ordering
@@ -1187,6 +1189,19 @@ class SplitWorld(BaseWorld):
 
     def region_of(self, ev):
         """Named known-finding regions (predicates over (event, state))."""
+        if ev['op'] == 'sle' and ev.get('solubility') is None:
+            sle = self.streams[ev['stream']].sle
+            rows = self.rows(self.streams[ev['stream']])
+            tot = rows['s'] + rows['l']
+            nonzero = frozenset(k for k in range(len(tot)) if tot[k] != 0)
+            idx = getattr(sle, '_index', None)
+            ks = self.pk.pos[ev['solute']]
+            if (getattr(sle, '_nonzero', None) == nonzero and isinstance(idx, list) and ks in idx
+                    and len(idx) > 1 and getattr(sle, '_solute_gamma_index', None) != idx.index(ks)):
+                # computed-solubility call naming another solute than the solver's previous one while the
+                # set of chemicals present is unchanged (the solver keeps the previous solute's position)
+                return 'C15-sle-solute-switch'
+            return None
         if ev['op'] != 'lle':
             return None
         mem = self.memory(ev['stream'])
@@ -1194,16 +1209,15 @@ class SplitWorld(BaseWorld):
         if mem is not None:
             idx, z = self.current_lle_feed(ev['stream'])
             same_chems = mem['ids'] == [self.pk.ids[k] for k in idx]
-            if (ev.get('use_cache', True) and same_chems and ev['T'] <= mem['T'] - 1e-3
+            if ((ev.get('use_cache', True) or ev.get('check') == 'cache') and same_chems
+                    and ev['T'] <= mem['T'] - 1e-3
                     and len(z) == len(mem['z']) and bool((mem['z'] - z < 1e-5).all())):
                 # probed lle call with cache reuse allowed, same chemicals, composition within the
                 # cache tolerance, at a temperature LOWER than the remembered one
                 return 'C15-lle-cache-lower-T'
-            if (method == 'pseudo equilibrium' and mem['two'] and same_chems
-                    and ev.get('check') in ('fresh', 'cache')
-                    and not (abs(ev['T'] - mem['T']) < 1e-3 and len(z) == len(mem['z'])
-                             and bool((np.abs(mem['z'] - z) < 1e-5).all()))):
-                # default method warm-started from remembered two-phase K at another T/composition
+            if (method == 'pseudo equilibrium' and mem['two'] and same_chems and ev.get('check') == 'fresh'):
+                # default method with a remembered two-phase K (it starts from that K and never updates
+                # it): the fresh-twin comparison is the clause this can influence
                 return 'C15-lle-default-method-warm-start'
         return None
 
@@ -1226,9 +1240,12 @@ class SplitWorld(BaseWorld):
             if reg and reg in self.regions:
                 self.stats['region:' + reg] += 1
                 continue
-            if op == 'lle' and self.cfg['method'] == 'pseudo equilibrium':
-                if 'C15-lle-default-method-activity' in self.regions:
-                    self.stats['region:C15-lle-default-method-activity'] += 1
+            if op == 'lle':
+                reg = ('C15-lle-default-method-activity' if self.cfg['method'] == 'pseudo equilibrium'
+                       else 'C15-lle-optimizer-activity')
+                if reg in self.regions:
+                    # the equal-activity clause is not evaluated for this method
+                    self.stats['region:' + reg] += 1
                     ev['activity'] = False
             if self.pre(ev):
                 return ev
@@ -1482,17 +1499,30 @@ class SplitWorld(BaseWorld):
             with np.errstate(all='ignore'):
                 ratio = np.abs(np.log(aL / al))
             ratio = np.where(np.isfinite(ratio), ratio, np.inf)
-            worst = float(ratio.max())
+            method = self.cfg['method']
+            if method == 'pseudo equilibrium':
+                tol = np.full(len(idx), ACT_TOL_PE)
+                unit = tol
+            else:
+                # a minimiser that stops at a Gibbs-energy resolution OPT_FTOL (per mole of feed) leaves
+                # chemical i displaced by up to sqrt(2 f_tol m_i), m_i = its smaller phase amount per mole
+                # of feed, i.e. a mismatch of ln-activities of sqrt(2 f_tol / m_i)
+                m = np.minimum(after['L'][idx], after['l'][idx]) / F
+                with np.errstate(all='ignore'):
+                    unit = np.where(m > 0, np.sqrt(2 * OPT_FTOL / np.where(m > 0, m, 1.0)), np.inf)
+                tol = ACT_C * unit
+            with np.errstate(all='ignore'):
+                rel = np.where(np.isfinite(unit), ratio / unit, 0.0)
             self.stats['judged:activity'] += 1
-            self.track('activity:' + self.cfg['method'] + (':aged' if mem else ':fresh'), worst)
-            if worst > ACT_TOL:
-                kk = int(np.argmax(ratio))
+            self.track('activity_over_unit:' + method + (':aged' if mem else ':fresh'), float(rel.max()))
+            if (ratio > tol).any():
+                kk = int(np.argmax(np.where(ratio > tol, rel, -1.0)))
                 detail['activity_L'] = aL.tolist()
                 detail['activity_l'] = al.tolist()
                 self.fail('equal-activity',
-                          f'lle(T={ev["T"]}, method={self.cfg["method"]!r}) returned two liquids in which the '
+                          f'lle(T={ev["T"]}, method={method!r}) returned two liquids in which the '
                           f'activity of {self.pk.ids[idx[kk]]} is {aL[kk]:.6g} in L and {al[kk]:.6g} in l '
-                          f'(|ln ratio| {worst:.3g} > {ACT_TOL})', detail)
+                          f'(|ln ratio| {ratio[kk]:.3g}, tolerance {tol[kk]:.3g})', detail)
         allow_swap = not ev.get('top')
         check = ev.get('check')
         if check == 'fresh':
